@@ -141,9 +141,10 @@ def verdict(prop, tier, seed, mods, results, wall, write=True, mres=None, scratc
         mut_info = mres
         for m in mres.get("missed", []):
             out_lines.append("UNDECIDED mutant-catalogue: seeded change %s was not caught by %s" % (m["name"], m["expect"]))
-    n_obl = len(obligations) + implicit
-    n_failed = len(failed)
-    discharged = n_obl - n_failed
+    # obligations recorded as known findings are reported separately and not counted as obligations of this run
+    n_known = len(known_seen)
+    n_obl = len(obligations) + implicit - n_known
+    discharged = n_obl - len(violations)
     ev = {
         "property_id": prop,
         "tier": tier,
